@@ -68,8 +68,11 @@ def add_parameters_contract():
                 if I.branch(locF(t) == l):
                     which = l
                     break
+            sch = SOpaque("schema") if I.branch(has_schema(t)) else None
+            if sch is not None:
+                sch.term = t
             attrs = {"name": SStr(nameF(t)), "param_in": loc_member[which], "required": SOpaque("required"),
-                     "param_schema": SOpaque("schema") if I.branch(has_schema(t)) else None}
+                     "param_schema": sch}
             r = SOpaque("resolved parameter", cls=oai.Parameter, attrs=attrs)
             r.term = t
             return r
@@ -81,7 +84,15 @@ def add_parameters_contract():
             return SObj(ParseError, {"detail": "unresolved", "header": "", "data": None, "level": None})
         I.contracts["openapi_python_client.parser.properties.schemas:parameter_from_reference"] = from_ref
 
+        W.current_ep, W.parsed_overridden = None, []
+
         def prop_from_data(I2, a, k):
+            # ghost: was the schema of a declaration parsed although the operation already has a parameter of this name in this
+            # location (an operation-level parameter overrides a path-item one: the overridden one must not even be looked at)
+            t = getattr(k.get("data"), "term", None)
+            if t is not None and W.current_ep is not None:
+                if I2.branch(z3.IsMember(nameF(t), W.names_of(W.current_ep, locF(t)))):
+                    W.parsed_overridden.append(t)
             if I2.branch_free():
                 return STuple([SObj(ParseError, {"detail": "bad schema", "header": "", "data": None, "level": None}), k["schemas"]])
             ok_location = I2.branch_free()
@@ -136,6 +147,7 @@ def add_parameters_contract():
             return facts(loc["endpoint"], uniq.term, z3.Length(seen))
 
         def havoc_endpoint(I2, cur):
+            W.current_ep = cur
             for l in LOCS:
                 cur.fields[f"{l}_parameters"].names = I2.fresh(f"names_{l}", z3.SetSort(S))
             return cur
@@ -172,7 +184,14 @@ def add_parameters_contract():
         ep = _result_endpoint(ctx)
         return ok and (ep is None or ep is not ep0)
 
+    def overridden(ctx):
+        return not ctx.inputs["W"].parsed_overridden
+
     clauses = [
+        Clause("overridden-declaration-not-parsed", overridden,
+               statement="the schema of a declared parameter is only parsed if the endpoint has no parameter of that name in that "
+                         "location yet: a path-item parameter the operation overrides is skipped before it can fail (so a bad "
+                         "overridden declaration never drops the operation)", props=["C08", "C03"]),
         Clause("every-declared-parameter-present", present,
                statement="if an Endpoint is returned, every declared parameter that resolves and has a schema is, under its wire "
                          "name, in the parameter list of its declared location (generic positions g < h)"),
@@ -180,4 +199,4 @@ def add_parameters_contract():
                statement="two declarations with the same (name, location) never both pass: the result is a ParseError"),
         Clause("argument-not-modified", frame, statement="the endpoint argument is not modified; the result is a copy"),
     ]
-    return FnContract(Q, [Case("any-number-of-declarations", make, clauses, raises=(), props=["C03", "C20", "C07"])])
+    return FnContract(Q, [Case("any-number-of-declarations", make, clauses, raises=(), props=["C03", "C20", "C07", "C08"])])
